@@ -616,6 +616,29 @@ theorem init_view_is_the_file (P : Params) (mt : String) (payload : Bytes) (v : 
       exact Or.inr ⟨h.symm, hm⟩
     · cases h
 
+/-- `Layer.Init` as the fetcher calls it (the digest parsed before, the URI
+    non-empty) is `initLayer`; called directly it also refuses a malformed
+    digest and a filesystem layer without a URI. -/
+theorem layer_init_checks (P : Params) (digest : Bytes) (uriEmpty : Bool) (mt : String) (payload : Bytes) :
+    (digestParse digest = none → layerInit P digest uriEmpty mt payload = none) ∧
+    ((digestParse digest).isSome → uriEmpty = false → layerInit P digest uriEmpty mt payload = initLayer P mt payload) ∧
+    (∀ p, layerInit P digest uriEmpty mt payload = some (.tar p) → p = payload ∧ P.tarOK payload = true) := by
+  refine ⟨fun h => by simp [layerInit, h], fun h hu => ?_, fun p hp => ?_⟩
+  · obtain ⟨d, hd⟩ := Option.isSome_iff_exists.1 h
+    simp [layerInit, initLayer, hd, hu]
+  · unfold layerInit at hp
+    split at hp
+    · cases hp
+    · split at hp
+      · split at hp
+        · rename_i ht
+          simp only [Option.some.injEq, View.tar.injEq] at hp
+          exact ⟨hp.symm, ht⟩
+        · cases hp
+      · split at hp
+        · split at hp <;> cases hp
+        · cases hp
+
 /-- The hypotheses of the theorems above are satisfiable: a correct gzip layer
     under a generic content type is published. -/
 example :
